@@ -112,10 +112,14 @@ def custom(ctx):
     reqs = [r for r in ctx.distinct if r.startswith("C01.fn\t") and r.split("\t")[2] != "-"]
     if reqs:
         ans = ctx.run_model(["C01.wt" + r[len("C01.fn"):] for r in reqs])
+        # "no-agree": well typed, but two variables of one function carry the same emitted name (the source shadows a name
+        # or re-uses it in a sibling block) — the flat name environment of the Lean C semantics (hypothesis `Agree`) does not
+        # cover block scoping; those programs are judged by the harness's two evaluators only (text side: scopes.rs)
         ctx.extra["theorem_hypotheses"] = {"requests": len(reqs), "wt": ans.count("wt"), "not_wt": ans.count("not-wt"),
+                                           "well_typed_but_names_not_flat": ans.count("no-agree"),
                                            "outside_model": ans.count("unsupported")}
         floor = 0.9
-        if ans.count("wt") < floor * max(1, len(reqs) - ans.count("unsupported")):
+        if ans.count("wt") < floor * max(1, len(reqs) - ans.count("unsupported") - ans.count("no-agree")):
             ctx.broken.append("coverage: fewer than 90% of the explored well-typed programs satisfy the theorems' hypotheses")
     # the same for the vector layer (hypotheses of gen_sem_vec_expr: VIr.typeOf + VIr.litOK)
     vreqs = [r for r in ctx.distinct if r.startswith("C01.vex\t") and r.split("\t")[2] != "-" and r.split("\t")[4] != "-"]
@@ -163,10 +167,16 @@ def search(ctx):
     return out
 
 
+C01NAMES = ["agree_unsatisfiable_of_shared_name", "agree_unsatisfiable_of_shared_function_name", "agree_of_injective",
+            "assignLocals_class", "assignLocals_collision_free", "local_pass_collision_free",
+            "locals_with_distinct_sources_stay_distinct"]
+
+
 SPEC = {
     "id": "C01",
-    "gens": ["HlslGenTables", "HlslIntrinsicTables", "HlslVecTables", "FmtTables", "ParseTables"],
-    "lean_modules": ["RsslVerif.Thm.C01", "RsslVerif.Thm.C01Vec", "RsslVerif.Thm.C09"],
+    # Reserved: C15's translator (reserved words + the source fingerprints of NameMap::build, incl. the local-variable pass)
+    "gens": ["HlslGenTables", "HlslIntrinsicTables", "HlslVecTables", "FmtTables", "ParseTables", "Reserved"],
+    "lean_modules": ["RsslVerif.Thm.C01", "RsslVerif.Thm.C01Names", "RsslVerif.Thm.C01Vec", "RsslVerif.Thm.C09", "RsslVerif.Thm.C15"],
     "theorems": [T + n for n in [
         "op_table_is_identity", "op_table_injective", "intrinsic_table_is_identity", "exporter_shape_as_modelled",
         "literal_value_preserved", "literal_total", "literal_never_panics", "literal_int32_min",
@@ -183,7 +193,17 @@ SPEC = {
         "dropping_inner_shape_cast_changes_meaning", "vector_op_literal_in_concrete_type", "literal_vector_cast_panics"]] + [
         # the text leg (printing the exported tree and reading it back) is property C09's; its table obligations are
         # C01 obligations too: a change of the printer's precedence / associativity tables breaks them
-        "RsslVerif.Thm.C09." + n for n in ["tables_agree", "assoc_agrees", "roundtrip_expr_partial", "paren_rule_matches_grammar"]],
+        "RsslVerif.Thm.C09." + n for n in ["tables_agree", "assoc_agrees", "roundtrip_expr_partial", "paren_rule_matches_grammar"]] + [
+        # "every use refers to the entity it referred to in the source" (the hypothesis `Agree` of gen_sem_*) is property C15's
+        # conclusion about NameMap::build; its obligations are C01 obligations too: a change of the name map (seeded mutant
+        # C01-4: the local-variable pass hands out a name another local already has) breaks source_fingerprints and with it
+        # everything in Thm.C15, and C01 starts its witness search (SEARCH_SOURCES: renamed locals next to `name_k` locals)
+        "RsslVerif.Thm.C15." + n for n in [
+            "source_fingerprints", "reserved_complete", "never_reserved", "injective_per_scope", "verbatim",
+            "locals_apart_from_used", "scope_loop_terminates", "emitted_never_reserved", "emitted_injective_file_scope",
+            "flat_used_name_unique", "uses_resolve_to_same_entity"]] + [
+        # Thm/C01Names.lean: the local pass never gives two locals one name unless the source did, and what `Agree` needs
+        "RsslVerif.Thm.C01Names." + n for n in C01NAMES],
     "harness": "c01",
     "nontrivial": nontrivial,
     "finding_key": finding_key,
